@@ -287,15 +287,19 @@ def helper_fns(fb):
     return cr, out
 
 
-def run_helper(fb, cr, body, count, npar, alias=False, single=True):
+def run_helper(fb, cr, body, count, npar, alias=False, single=True, facts=(), decomp=None):
     """run a bulk helper on `count` blocks with parallel width npar; returns single path."""
     from .interp import Interp, State, Target, vbytes, vref
     from .kernels import run_method, NPAR
     ctx = base_ctx()
     ctx.alias_len["ParBlocksSize"] = lin(npar)
     F = base_facts()
+    for g in facts:
+        F.add_ge(g)
 
     def build(ip, st):
+        if decomp is not None:
+            st.decomp[(lin(count), lin(npar))] = decomp
         args = []
         cells = {}
         st.heap[("A", "cipher")] = ("opaque", "B")
@@ -341,10 +345,11 @@ def _par_used(p):
 
 
 def check_helpers(rep, fb, rule_prefix="helpers"):
-    """C07 (iv) / C14: one block of each bulk helper == the mode's one-block definition; one full
-    parallel group (symbolic width n) == n successive single steps from an arbitrary entry state.
-    Since the helper is a loop of groups followed by a loop of singles over the partition made by
-    InOutBuf::into_chunks, this gives helper == sequential processing for every width and count."""
+    """C07 (iv) / C14: one block of each bulk helper == the mode's one-block definition; a buffer of
+    two full parallel groups followed by r < n single blocks (width n and r symbolic, arbitrary
+    entry state) == 2n+r successive single steps.  The group loop is executed group by group
+    (literal trip count 2), so group-to-group chaining, group-to-remainder chaining and in-place
+    overwriting across groups are all exercised."""
     from .kernels import NPAR
     cr, helpers = helper_fns(fb)
     if len(helpers) < 4:
@@ -376,9 +381,12 @@ def check_helpers(rep, fb, rule_prefix="helpers"):
             rep.ob(rule_prefix + ".one-block", inst, match is not None, "single block step == %s" % (match or "none of " + ", ".join(cands)), loc, computed=T.bshow(o1))
             if match is None:
                 continue
-            # one full group with symbolic width
-            grps = run_helper(fb, cr, b, NPAR, NPAR, single=False)
-            grps2 = run_helper(fb, cr, b, NPAR, NPAR, alias=True, single=False)
+            # two full parallel groups and a remainder of r < n single blocks, width n symbolic
+            R = Lin.sym("r")
+            KK = NPAR * 2 + R
+            hf = (R, NPAR - 1 - R)
+            grps = run_helper(fb, cr, b, KK, NPAR, single=False, facts=hf, decomp=(lin(2), R))
+            grps2 = run_helper(fb, cr, b, KK, NPAR, alias=True, single=False, facts=hf, decomp=(lin(2), R))
             if not any(_par_used(g) for g in grps):
                 rep.ob(rule_prefix + ".par-group", inst, True, "helper has no parallel branch: strictly sequential for every width", loc)
                 continue
@@ -390,14 +398,14 @@ def check_helpers(rep, fb, rule_prefix="helpers"):
                 v = Lin.sym(j)
                 Fj = Fg.copy()
                 Fj.add_ge(v)
-                Fj.add_ge(NPAR - 1 - v)
-                T.declare_var("hin", NPAR * BS)
+                Fj.add_ge(KK - 1 - v)
+                T.declare_var("hin", KK * BS)
                 cur = T.bslice(T.bvar("hin"), v * BS, BS, Fj)
                 prev = T.bslice(T.bvar("hin"), (v - 1) * BS, BS, Fj)
                 if match == "cbc-dec":
                     w = T.bnorm((("i", ("eq", v), BS, T.bvar("iv"), prev),), Fj)
                     tm = S.cbc("dec", cur, w, Fj)[0]
-                    fin = T.bslice(T.bvar("hin"), (NPAR - 1) * BS, BS, Fg)
+                    fin = T.bslice(T.bvar("hin"), (KK - 1) * BS, BS, Fg)
                 elif match == "ecb-enc":
                     tm = T.mkcipher("E", cur, Fj)
                     fin = None
@@ -407,11 +415,11 @@ def check_helpers(rep, fb, rule_prefix="helpers"):
                 else:
                     rep.ob(rule_prefix + ".par-group", inst, False, "parallel branch on a chained encryption direction", loc)
                     continue
-                exp = T.bnorm((("m", j, ZERO, NPAR, BS, tm),), Fg)
+                exp = T.bnorm((("m", j, ZERO, KK, BS, tm),), Fg)
                 ok = T.bequal(og, exp, Fg)
                 if fin is not None:
                     ok = ok and T.bequal(grp["cells"]["iv"][1], fin, Fg)
-                rep.ob(rule_prefix + ".par-group", "%s/%s" % (inst, tag), ok, "one group of n blocks (width n symbolic, %s path) == n successive single steps from an arbitrary state" % tag, loc, computed=T.bshow(og), expected=T.bshow(exp))
+                rep.ob(rule_prefix + ".par-group", "%s/%s" % (inst, tag), ok, "two groups of n blocks + r < n single blocks (n, r symbolic, %s path) == 2n+r successive single steps" % tag, loc, computed=T.bshow(og), expected=T.bshow(exp))
                 bad = [o for o in grp["oblig"] if not o["ok"]]
                 rep.ob(rule_prefix + ".no-panic", "%s/%s" % (inst, tag), not bad, "; ".join("%s %s" % (o["kind"], o["detail"]) for o in bad[:3]) or "%d panic obligations discharged" % len(grp["oblig"]), loc)
                 for g2 in grps2:
